@@ -106,8 +106,9 @@ CHECKS = {
         "module": "Vanguard.Props.C16", "namespace": "Vanguard.C16", "streams": ["pingpong", "e2e"],
         "partial": "response direction proved for whole runs of the model (ProgInv is an invariant of every handler script: after every handler call, "
                    "while the RPC is open and the client protocol streams, everything written on the re-encoding path is flushed and on the re-framing "
-                   "path everything is flushed whenever the writer is between messages); request direction proved per Read only (no Read served from the "
-                   "message in hand touches the client's body; the exact reader never exceeds its message) - for whole runs Spec.reqStepOk is evaluated on the "
+                   "path everything is flushed whenever the writer is between messages); request direction: proved for whole runs on the re-framing path "
+                   "(the reader holds back nothing but part of one envelope), per Read only on the re-encoding path (no Read served from the "
+                   "message in hand touches the client's body) - for whole runs Spec.reqStepOk is evaluated on the "
                    "implementation's progress logs and a lock-step client in the harness flags the first Read that would block for ever - "
                    "checked, not proved; a real HTTP/2 connection (flow control, net/http's own buffering) is replaced by a recorder whose "
                    "Flush offsets define what the client has received",
